@@ -1,0 +1,7 @@
+//go:build !verif
+
+package comet
+
+// verifPoint marks a point of interest for the verification harness (/verif).
+// Without the verif build tag it is an empty function.
+func verifPoint(name string, args ...uint64) {}
